@@ -100,6 +100,10 @@ def address_corpus(tier, seed, model, cross=True):
                 for p in reversed(pos):
                     s[p:p] = b"@"
                 out.add(bytes(s))
+    for w in (b"postmaster", b"Postmaster", b"POSTMASTER", b"abuse", b"root", b"MAILER-DAEMON", b"hostmaster", b"webmaster", b"admin",
+              b"nobody", b"<>", b"<postmaster>", b"postmaster@", b"@postmaster", b"mailto:a@b.cd", b"a@b.cd>", b"<a@b.cd>", b"localhost", b"example.com"):
+        out.add(w)
+        out.add(w + b"@example.com" if b"@" not in w else w)
     out.update([b"@", b"@@", b"a@", b"@a.bc", b"a@@b.cd", b"@@a.bc", b"a@b@c.de", b'"a@b"@c.de', b"a@b.cd@", b"a", b"a.bc"])
     # local-part length boundary in several shapes
     for n in range(60, 70):
